@@ -243,7 +243,11 @@ func (k Keeper) UpdateNSTValidatorListForStaker(ctx sdk.Context, assetID, staker
 }
 
 // UpdateNSTByBalanceChange updates balance info for staker under native-restaking asset of assetID when its balance changed by slash/refund on the source chain (beacon chain for eth)
-func (k Keeper) UpdateNSTByBalanceChange(ctx sdk.Context, assetID string, rawData []byte, roundID uint64) error {
+func (k Keeper) UpdateNSTByBalanceChange(originalCtx sdk.Context, assetID string, rawData []byte, roundID uint64) error {
+	// the stakers are updated one after the other and the update of any of them may fail. Since this
+	// function is also called from EndBlock, where nothing reverts the state after an error, all
+	// updates are performed on a cached context that is only written when every staker has been updated.
+	ctx, writeCache := originalCtx.CacheContext()
 	_, chainID, _ := assetstypes.ParseID(assetID)
 	if len(rawData) < 32 {
 		return errors.New("length of indicate maps for stakers shoule be exactly 32 bytes")
@@ -307,6 +311,7 @@ func (k Keeper) UpdateNSTByBalanceChange(ctx sdk.Context, assetID string, rawDat
 		bz := k.cdc.MustMarshal(stakerInfo)
 		store.Set(key, bz)
 	}
+	writeCache()
 	return nil
 }
 
